@@ -595,8 +595,8 @@ CHECK = Check(
         "non-trivial = a datagram arrives while that client's generator is active or in the very tick it finishes; distinct = sha1"
     ),
     layers=[
-        Layer("lowlevel", _strategy("lowlevel"), run_case, {"quick": 1200, "thorough": 10000}),
-        Layer("highlevel", _strategy("highlevel"), run_case, {"quick": 1200, "thorough": 10000}),
+        Layer("lowlevel", _strategy("lowlevel"), run_case, {"quick": 1200, "thorough": 8000}),
+        Layer("highlevel", _strategy("highlevel"), run_case, {"quick": 1200, "thorough": 8000}),
     ],
     assumptions=[
         "the in-memory listener starts one task per datagram in arrival order (mirrors datagram/listener.py); ordering inside the kernel "
